@@ -1,6 +1,7 @@
 package dposstate
 
 import (
+	"encoding/json"
 	"fmt"
 	"os"
 	"sort"
@@ -33,8 +34,12 @@ func TestDev(t *testing.T) {
 			continue
 		}
 		seed := core.Mix(uint64(base), uint64(i))
-		plan := Engine{}.Generate(core.NewRng(seed), prop, "quick")
-		plan.Engine, plan.Property, plan.Tier, plan.Seed = "dposstate", prop, "quick", seed
+		tier := "quick"
+		if os.Getenv("DEV_TIER") != "" {
+			tier = os.Getenv("DEV_TIER")
+		}
+		plan := Engine{}.Generate(core.NewRng(seed), prop, tier)
+		plan.Engine, plan.Property, plan.Tier, plan.Seed = "dposstate", prop, tier, seed
 		out := core.Run(t, Engine{}, plan, os.Getenv("DEV_LOG") != "")
 		if out.HarnessErr != "" {
 			fmt.Printf("seed %d HARNESS ERR: %s\n", i, out.HarnessErr)
@@ -140,5 +145,29 @@ func TestDevPlan(t *testing.T) {
 	fmt.Println(plan.Knobs)
 	for i, s := range plan.Steps {
 		fmt.Println(i, string(s))
+	}
+}
+
+func TestDevReplay(t *testing.T) {
+	f := os.Getenv("DEV_REPLAY")
+	if f == "" {
+		t.Skip()
+	}
+	b, err := os.ReadFile(f)
+	if err != nil {
+		t.Fatal(err)
+	}
+	var rf struct {
+		Plan *core.Plan `json:"plan"`
+	}
+	if err := json.Unmarshal(b, &rf); err != nil {
+		t.Fatal(err)
+	}
+	out := core.Run(t, Engine{}, rf.Plan, true)
+	for _, l := range out.Log {
+		fmt.Println("  ", l)
+	}
+	for _, v := range out.Violations {
+		fmt.Println(v.Property, v.Signature, "::", v.Message)
 	}
 }
